@@ -226,6 +226,7 @@ func checkTraversal(root *newick.Node, nodes []*newick.Node, what string) core.O
 }
 
 func runC19(r *core.Run) {
+	firstCallClause(r, "newick.traversals")
 	defer racePass(r, "race-C19", "PreOrder and PostOrder of one shared tree")
 
 	N := core.Pick(r, 9, 14)
